@@ -1,8 +1,24 @@
 /* h_echsd.h -- includes the real echsd.c with main() renamed.
- * Dropped (stated): nothing of the function bodies; echsd's main becomes
- * echsd_main and is never called by the harnesses. */
+ * Dropped (stated): echsd's main becomes echsd_main and is never called by
+ * the harnesses.  With H_NOLOG the logging macros of logger.h are pre-empted
+ * by no-ops (logging is variadic and irrelevant to every contract here; DFCC
+ * aborts on generated bodies for variadic functions). */
 #if !defined INCLUDED_h_echsd_h_
 #define INCLUDED_h_echsd_h_
+#if defined H_NOLOG && !defined REPLAY
+# define INCLUDED_logger_h_
+# include <syslog.h>
+# define ECHS_INFO_LOG(args...)	do {} while (0)
+# define ECHS_ERR_LOG(args...)	do {} while (0)
+# define ECHS_CRIT_LOG(args...)	do {} while (0)
+# define ECHS_NOTI_LOG(args...)	do {} while (0)
+# define ECHS_DEBUG(args...)
+# define ECHS_DBGCONT(args...)
+static inline void echs_openlog(void) {}
+static inline void echs_closelog(void) {}
+extern void(*echs_log)(int prio, const char *fmt, ...);
+extern void echs_errlog(int prio, const char *fmt, ...);
+#endif
 #define main	echsd_main
 #include "echsd.c"
 #undef main
